@@ -177,9 +177,7 @@ Flat(v) == [A  |-> SelectSeq([a \in Addrs |-> FlatAcct(a, v.st.acct[a])], LAMBDA
             L  |-> v.st.logs,
             P  |-> SelectSeq([p \in 1..1 |-> p], LAMBDA p : v.st.preim[p]),
             AA |-> SelectSeq([a \in Addrs |-> a], LAMBDA a : v.st.alA[a]),
-            AS |-> SetToSeq({<<a, s>> : a \in {b \in Addrs : \E t \in Slots : v.st.alS[b][t]},
-                                        s \in {t \in Slots : \E b \in Addrs : v.st.alS[b][t]}}
-                            \cap {<<a, s>> \in Addrs \X Slots : v.st.alS[a][s]}),
+            AS |-> SetToSeq({p \in Addrs \X Slots : v.st.alS[p[1]][p[2]]}),
             T  |-> SetToSeq({<<a, s, v.st.tst[a][s]>> : <<a, s>> \in {<<b, t>> \in Addrs \X Slots : v.st.tst[b][t] # 0}}),
             X  |-> v.etx, H |-> v.ldh,
             M  |-> SelectSeq([a \in Addrs |-> a], LAMBDA a : v.ldm[a]),
